@@ -189,11 +189,13 @@ def run_sdk(cfg, init, ops):
             fail = (-1, f"constructor raised {type(e).__name__}: {str(e)[:80]}")
         elif any(n.parent is not None for n in news):
             fail = (-1, "rejected constructor left elements with a parent")
+        run_sdk.all_codes = [code]
         return [code], 0, fail
     v = violations_of_list(lst)
     if v:
         fail = (-1, f"constructor accepted a list violating {sorted(v)}")
     codes = []
+    all_codes = []
     for k, op in enumerate(ops):
         before = snapshot(lst)
         existing = [spec_of(e) for e in lst.value]
@@ -262,6 +264,8 @@ def run_sdk(cfg, init, ops):
                         fail = (k, f"after rejected {kind} the list violates {sorted(v)}")
         if kind in SINGLE + ("insert",):
             codes.append(code)
+        all_codes.append(code)
+    run_sdk.all_codes = all_codes
     return codes, len(lst.value), fail
 
 
@@ -279,6 +283,17 @@ def coq_cfg(cfg):
     return (f"(mkCfg {TYPE_IDS[tle]}%nat {ml} {'true' if tle in ('Property', 'Range') else 'false'} "
             + ("None" if vtle is None else f"(Some {VTS.index(vtle)}%nat)") + " "
             + ("None" if semle is None else f"(Some {SEMS.index(semle)}%nat)") + ")")
+
+
+MODEL_OPS = SINGLE + ("insert", "extend", "iadd", "setvalue")
+
+
+def coq_sop(op):
+    k = op[0]
+    if k in SINGLE + ("insert",):
+        return "SAdd " + coq_elem(op[-1])
+    el = "[" + "; ".join(coq_elem(s) for s in op[-1]) + "]" if op[-1] else "(@nil elem)"
+    return ("SSetValue " if k == "setvalue" else "SExtend ") + el
 
 
 def shrink(cfg, init, ops):
@@ -363,7 +378,42 @@ def frag_sml(chk, can_eval):
         cl = "[" + "; ".join(coq_z(c) for c in codes) + "]" if codes else "(@nil Z)"
         terms.append(f"({coq_cfg(cfg)}, [" + "; ".join(coq_elem(s) for s in es) + f"], {cl}, {n})")
         tcases.append((cfg, [], ops))
+    # add/append/insert/extend/+=/value-setter stream for sml_run (multi-element calls are atomic)
+    oterms, ocases = [], []
+    for _ in range(1500 if chk.tier == "quick" else 15000):
+        cfg = gen_cfg(rng)
+        ops = []
+        for _ in range(rng.randint(1, 7)):
+            k = rng.choice(MODEL_OPS)
+            if k in ("extend", "iadd", "setvalue"):
+                ops.append((k, [gen_spec(rng, cfg, 0.2) for _ in range(rng.randint(0, 3))]))
+            elif k == "insert":
+                ops.append((k, rng.randint(-3, 4), gen_spec(rng, cfg)))
+            else:
+                ops.append((k, gen_spec(rng, cfg)))
+        ocases.append((cfg, [], ops))
+    ocases += [c for c in cases if not c[1] and c[2] and all(o[0] in MODEL_OPS for o in c[2])]
+    for cfg, init, ops in ocases:
+        _, n, fail = run_sdk(cfg, init, ops)
+        acodes = list(run_sdk.all_codes) if hasattr(run_sdk, "all_codes") else []
+        chk.seen(("sml-ops", repr((cfg, ops))), nontrivial=len(ops) >= 2)
+        if fail:
+            k, msg = fail
+            small = shrink(cfg, init, ops[:k + 1]) if k >= 0 else []
+            k2, msg2 = run_sdk(cfg, init, small)[2]
+            import re
+            chk.fail(f"C02:SubmodelElementList:{small[k2][0] if k2 >= 0 else 'ctor'}:" + re.sub(r"\[.*?\]|\d+", "_", msg2)[:60], msg2,
+                     {"kind": "sml", "cfg": list(cfg), "init": [], "ops": [list(o) for o in small]})
+        cl = "[" + "; ".join(coq_z(c) for c in acodes) + "]" if acodes else "(@nil Z)"
+        oterms.append(f"({coq_cfg(cfg)}, [" + "; ".join(coq_sop(o) for o in ops) + f"], {cl}, {n})")
     if can_eval:
+        bad, errs = common.run_mismatch_shards("C02smo", PRELUDE, oterms, "check_sml_ops_case", shard=800)
+        chk.traces += common.run_mismatch_shards.evaluated - len(bad)
+        for e in errs:
+            chk.tie_broken("correspondence-run", e)
+        if bad:
+            chk.tie_broken("correspondence", {"fragment": "SubmodelElementList extend/+=/value setter", "n_disagreements": len(bad),
+                                              "case": repr(ocases[bad[0]]), "term": oterms[bad[0]][:600]})
         bad, errs = common.run_mismatch_shards("C02sml", PRELUDE, terms, "check_sml_case", shard=800)
         chk.traces += common.run_mismatch_shards.evaluated - len(bad)
         for e in errs:
